@@ -448,6 +448,43 @@ def _o_fuel(P, T, rng):
         sp['total'] *= 0.1
 
 
+@option('fuel_model_gap_material_closed_gap', needs=('nolf',))
+def _o_fuel_gapmat0(P, T, rng):
+    # a gap material may be named although the gap is closed (thickness 0)
+    m = _fuel_model()
+    P['materials']['gap_he_own'] = {'thermal_conductivity': [0.3]}
+    m['gap_material'] = 'gap_he_own'
+    m['gap_thickness'] = 0.0
+    P['types'][T]['FuelModel'] = m
+    for sp in P['power']['asm'].values():
+        sp['total'] *= 0.1
+
+
+@option('fuel_model_open_gap', needs=('nolf',))
+def _o_fuel_gap(P, T, rng):
+    m = _fuel_model()
+    P['materials']['gap_he_own'] = {'thermal_conductivity': [0.3]}
+    m['gap_material'] = 'gap_he_own'
+    m['gap_thickness'] = float(rng.uniform(1e-5, 5e-5))
+    P['types'][T]['FuelModel'] = m
+    for sp in P['power']['asm'].values():
+        sp['total'] *= 0.1
+
+
+@option('pin_model', needs=('nolf',))
+def _o_pinmodel(P, T, rng):
+    P['materials']['pin_own'] = {'thermal_conductivity': [12.0]}
+    m = {'clad_material': 'ht9', 'r_frac': [0.0, 0.5],
+         'pin_material': ['pin_own', 'pin_own']}
+    if rng.random() < 0.7:
+        P['materials']['gap_he_own'] = {'thermal_conductivity': [0.3]}
+        m['gap_material'] = 'gap_he_own'
+        m['gap_thickness'] = float(wl.choose(rng, [0.0, 2e-5]))
+    P['types'][T]['PinModel'] = m
+    for sp in P['power']['asm'].values():
+        sp['total'] *= 0.1
+
+
 @option('dummy_pin', needs=('nolf',))
 def _o_dummy(P, T, rng):
     P['types'][T]['dummy_pin'] = [1]
